@@ -17,7 +17,7 @@ ASSUMPTIONS = ["listing order is imposed through an ordered set of tool outputs 
                "workflows in which the type of a workflow source is, contains, or is later given, a function type (a polymorphic operator over-applied through it) are not generated: "
                "the type node such an operator's step gets depends on the in-place normalisation of a type object shared through the source, which the "
                "value-based model does not have"]
-TRUSTED = ["harness/wfgen.py", "harness/graphgen.py", "rdflib.compare.isomorphic"]
+TRUSTED = ["harness/wfgen.py", "harness/graphgen.py", "harness/iso.py (exact graph isomorphism; rdflib.compare.isomorphic only as a fast path for positive answers)"]
 
 
 def build(lang, wfobj, bits, passthrough):
@@ -176,7 +176,7 @@ def wf_line(wf, bits, passthrough, order):
 
 
 def one_workflow(ctx, li, spec, ops, opdecls, lang, listed, wf, bits, passthrough):
-    from rdflib.compare import isomorphic
+    from iso import isomorphic
     from transforge.namespace import TF
     n = len(wf["apps"])
     orders = list(itertools.permutations(range(n)))
